@@ -196,6 +196,25 @@ fn run_case(bits: usize, m: usize, t: usize, seeded: bool, rseed: u64) -> Value 
         }
     }
 
+    // phase 4c: a witness REFRESHED in place from a larger one (Clone::clone_from): whatever the old object held must be wiped before any of its
+    // blocks is released, also when the openings vector has to grow
+    {
+        let mut small = RangeWitness::init(vec![CommitmentOpening::new(values[0], blindings[0].clone())]).unwrap();
+        let mut ops2: Vec<CommitmentOpening> = values.iter().zip(blindings.iter()).map(|(v, r)| CommitmentOpening::new(*v, r.clone())).collect();
+        ops2.push(CommitmentOpening::new(values[0], blindings[0].clone()));
+        if ops2.len() % 2 == 1 {
+            ops2.push(CommitmentOpening::new(values[0], blindings[0].clone()));
+        }
+        let big = RangeWitness::init(ops2).unwrap();
+        arm();
+        small.clone_from(&big);
+        out["witness_clone_from"] = disarm_scan(&patterns);
+        arm();
+        drop(small);
+        drop(big);
+        out["drop_after_clone_from"] = disarm_scan(&patterns);
+    }
+
     // phase 5: owning types built from vectors whose spare capacity still holds secrets (truncate / drain leave stale copies behind):
     // the whole buffer that held secrets must be wiped, not only its live elements
     let spare: Vec<Scalar> = (0..2).map(|_| Scalar::random(&mut rng)).collect();
